@@ -253,6 +253,16 @@ def replay_case(case):
             return a
         return np.einsum("ia,jb,ab...->ij...", np.abs(T), np.abs(T), a)
 
+    if case["kind"] == "basis" and case["id"] % 2 == 0:
+        from . import reuse
+        fn = {"overlap": ("gbasis.integrals.overlap", "overlap_integral"), "kinetic": ("gbasis.integrals.kinetic_energy", "kinetic_energy_integral"),
+              "moment": ("gbasis.integrals.moment", "moment_integral"), "momentum": ("gbasis.integrals.momentum", "momentum_integral"),
+              "angmom": ("gbasis.integrals.angular_momentum", "angular_momentum_integral")}[what]
+        f0 = getattr(gb.mod(fn[0]), fn[1])
+        if what == "moment":
+            reuse.neighbour_first(gb, b1, lambda sh: f0(sh, np.array([exact.dyf(c) for c in case["origin"]]), np.array(case["orders"], dtype=int).reshape(-1, 3)))
+        else:
+            reuse.neighbour_first(gb, b1, f0)
     if what == "overlap":
         f = gb.mod("gbasis.integrals.overlap").overlap_integral
         got = f(shells1, transform=T) if T is not None else f(shells1)
@@ -368,20 +378,24 @@ def gen_pair_cases(pid, what, seed, tier, lmax, draws, extra):
             if la + lb >= 4 and la >= 1 and lb >= 1:
                 # the tail regime: two diffuse shells so far apart along ONE axis that the Gaussian product prefactor is
                 # 1e-10..1e-14 while the polynomial factors keep the integral above the tolerance of the property
-                rng = cg.rng_for(seed, pid, "tail", la, lb)
-                bits = 24
-                ea, eb = cg.exponent(rng, 0.3, 1.0, bits), cg.exponent(rng, 0.3, 1.0, bits)
-                mu = cg.val(ea) * cg.val(eb) / (cg.val(ea) + cg.val(eb))
-                dist = cg.dyadic((rng.uniform(23.0, 32.0) / mu) ** 0.5, 12)
-                ax = rng.randrange(3)
-                cen_b = [[0, 0], [0, 0], [0, 0]]
-                cen_b[ax] = dist
-                sa = {"l": la, "center": [[0, 0]] * 3, "exps": [ea], "coeffs": [[cg.coeff(rng)]], "type": rng.choice(["cartesian", "spherical"])}
-                sb = {"l": lb, "center": cen_b, "exps": [eb], "coeffs": [[cg.coeff(rng)]], "type": rng.choice(["cartesian", "spherical"])}
-                cid += 1
-                c = {"id": cid, "pid": pid, "what": what, "kind": "pair", "la": la, "lb": lb, "basis": [sa, sb], "tail": True}
-                c.update(extra(rng, c))
-                out.append(c)
+                # (a screening threshold is usually a power of ten: the largest neglected element lies just beyond
+                # mu R^2 = -ln(threshold); the highest angular momenta are placed right above 1e-10 .. 1e-14)
+                wins = [(23.0, 32.0)] if la + lb < 7 else [(t_ + 0.03, t_ + 0.5) for t_ in (23.03, 25.33, 27.63, 29.93, 32.24)]
+                for lo_t, hi_t in wins:
+                    rng = cg.rng_for(seed, pid, "tail", la, lb, lo_t)
+                    bits = 24
+                    ea, eb = cg.exponent(rng, 0.3, 1.0, bits), cg.exponent(rng, 0.3, 1.0, bits)
+                    mu = cg.val(ea) * cg.val(eb) / (cg.val(ea) + cg.val(eb))
+                    dist = cg.dyadic((rng.uniform(lo_t, hi_t) / mu) ** 0.5, 12)
+                    ax = rng.randrange(3)
+                    cen_b = [[0, 0], [0, 0], [0, 0]]
+                    cen_b[ax] = dist
+                    sa = {"l": la, "center": [[0, 0]] * 3, "exps": [ea], "coeffs": [[cg.coeff(rng)]], "type": rng.choice(["cartesian", "spherical"])}
+                    sb = {"l": lb, "center": cen_b, "exps": [eb], "coeffs": [[cg.coeff(rng)]], "type": rng.choice(["cartesian", "spherical"])}
+                    cid += 1
+                    c = {"id": cid, "pid": pid, "what": what, "kind": "pair", "la": la, "lb": lb, "basis": [sa, sb], "tail": True}
+                    c.update(extra(rng, c))
+                    out.append(c)
             if abs(la - lb) >= 2:
                 # one centre (off the origin), angular momenta two or more apart, the higher shell Cartesian: Cartesian shells
                 # are reducible (d holds an s part, f a p part, ...), so selection rules of pure harmonics do not apply
